@@ -245,6 +245,28 @@ func (w *termWorld) stop() {
 	}
 }
 
+// termLogger builds the logger of the case. How the options reach it is varied deterministically with the case:
+// all at construction; the hook options applied afterwards through WithOptions (as Config.Build and NewProduction do
+// with caller-supplied options); and with caller annotation configured but unresolvable (a skip beyond the stack).
+func termLogger(b termBeh, core zapcore.Core, custom zapcore.CheckWriteHook) *zap.Logger {
+	opts := termOptions(b, custom)
+	quiet := zap.ErrorOutput(zapcore.AddSync(io.Discard))
+	h := len(b.Fe) + b.Lvl + len(b.Core) + len(b.Hook)
+	var lg *zap.Logger
+	switch h % 3 {
+	case 0:
+		lg = zap.New(core, append(opts, quiet)...)
+	case 1:
+		lg = zap.New(core, quiet).WithOptions(opts...)
+	default:
+		lg = zap.New(core, quiet).With(zap.Int("derived", 1)).Named("n").WithOptions(opts...)
+	}
+	if h%4 == 0 {
+		lg = lg.WithOptions(zap.AddCaller(), zap.AddCallerSkip(100000))
+	}
+	return lg
+}
+
 func termOptions(b termBeh, custom zapcore.CheckWriteHook) []zap.Option {
 	var opts []zap.Option
 	if b.Dev {
@@ -349,7 +371,7 @@ func replayC06(c *Ctx, b termBeh, child bool) (finds []Finding) {
 		}
 	}
 	hook := &termHook{snap: snapshot, other: zap.New(zapcore.NewCore(termEnc(), zapcore.AddSync(io.Discard), zapcore.DebugLevel))}
-	lg := zap.New(w.core, append(termOptions(b, hook), zap.ErrorOutput(zapcore.AddSync(&bytes.Buffer{})))...)
+	lg := termLogger(b, w.core, hook)
 	var recovered interface{}
 	returned := false
 	func() {
@@ -499,7 +521,7 @@ func childC06(args []string) {
 		}
 		return f
 	})
-	lg := zap.New(w.core, termOptions(b, nil)...)
+	lg := termLogger(b, w.core, nil)
 	termCall(lg, b.Fe, zapcore.Level(b.Lvl), termMsgOf(b))
 	fmt.Println("C06-RETURNED")
 	os.Exit(0)
